@@ -419,16 +419,19 @@ type vsCtl struct {
 	sl *vsSL
 }
 
-func vsNewCtl(ignore bool, sl *vsSL) *vsCtl {
+func vsNewCtl(ignore bool, sl *vsSL) *vsCtl { return vsNewCtlFor(0, ignore, sl) }
+
+// the controller of the speaker running on node `me`
+func vsNewCtlFor(me int, ignore bool, sl *vsSL) *vsCtl {
 	sm := &vbSM{}
-	c := vbNewController(sm, ignore, true)
+	c := vbNewControllerFor(vbNodeNames[me], sm, ignore, true)
 	var ifs []string
 	for _, i := range vsLocalIfs {
 		ifs = append(ifs, vsIfNames[i])
 	}
 	a := layer2.VerifSpkNewAnnounce(ifs)
 	// what newController does when layer 2 is enabled, with the overlay announcer
-	c.protocolHandlers[config.Layer2] = &layer2Controller{announcer: a, myNode: vbNodeNames[0], sList: sl,
+	c.protocolHandlers[config.Layer2] = &layer2Controller{announcer: a, myNode: vbNodeNames[me], sList: sl,
 		ignoreExcludeLB: ignore, onStatusChange: func(types.NamespacedName) {}}
 	c.protocols = append(c.protocols, config.Layer2)
 	return &vsCtl{c: c, sm: sm, a: a, sl: sl}
@@ -600,6 +603,16 @@ type vsWorld struct {
 	staleBy int
 }
 
+// index of the pool containing all the addresses, -1 if none
+func vsPoolIdx(c *vsCfg, ips []string) int {
+	for i := range c.Pools {
+		if vsHasPool(&vsCfg{Pools: c.Pools[i : i+1]}, ips) {
+			return i
+		}
+	}
+	return -1
+}
+
 // some pool of the configuration contains all the addresses
 func vsHasPool(c *vsCfg, ips []string) bool {
 	for _, pl := range c.Pools {
@@ -765,6 +778,7 @@ func vsRunHistory(out *vOut, id int, kind string, h vsHist, r *rand.Rand) {
 	var steps []string
 	var done []vsEv
 	failed := false
+	failedElig := false
 	f9 := false
 	emit := func(e vsEv) vsObs {
 		o := vsObserve(k)
@@ -921,6 +935,79 @@ func vsRunHistory(out *vOut, id int, kind string, h vsHist, r *rand.Rand) {
 				fail("speaker-announces-differ-from-fresh", fmt.Sprintf("speaker announces %s, a fresh speaker on the same state %s", vsAnnounced(o), vsAnnounced(want)), o, want)
 			}
 		}
+		// ---- oracle (C10 over histories): at quiescence the routes on every live session are exactly those
+		// of the Services this node must announce over BGP by the statement: an advertisement of the
+		// address's pool selects this node, the node is not network-unavailable, not labelled excluded
+		// (unless told to ignore the label), and the endpoint rule of the traffic policy holds
+		if w.cfg != nil {
+			eligible := func(f18 bool) *vbWorld {
+				ww := &vbWorld{svcs: map[int]vbEv{}}
+				kind := 0
+				if nd := w.nodes[0]; nd != nil {
+					kind = 1
+					if nd.Unavail {
+						kind = 2
+					}
+					if nd.Excl {
+						kind = 3
+					}
+					if nd.Unavail && nd.Excl {
+						kind = 4
+					}
+				}
+				for n, s := range w.K {
+					if !s.LB || s.Invalid || len(s.IPs) == 0 {
+						continue
+					}
+					pi := vsPoolIdx(w.cfg, s.IPs)
+					if pi < 0 {
+						continue
+					}
+					lay := vbLayout{Eps: s.Eps}
+					for _, a := range w.cfg.Pools[pi].BGP {
+						lay.Advs = append(lay.Advs, a.Nodes)
+					}
+					fl := vbFlags{Node: kind, Ignore: h.Ignore, Local: s.Local}
+					ok := vbLiteral(lay, fl)
+					if !ok && f18 && vbF18Shape(lay, fl) {
+						fl2 := fl
+						fl2.Local = false
+						ok = vbLiteral(lay, fl2) // F18: decided as for Cluster plus "some address served here"
+					}
+					if ok {
+						ww.svcs[n] = vbEv{Op: "set", Svc: n, IPs: s.IPs, Advs: w.cfg.Pools[pi].BGP}
+						out.Stat("elig_services_expected_over_bgp", 1)
+					}
+				}
+				return ww
+			}
+			differs := func(ww *vbWorld) (int, string, string) {
+				for pn, got := range o.Sess {
+					wantAds := vbSortAds(vbIntended(ww, pn))
+					gb, _ := json.Marshal(got)
+					wb, _ := json.Marshal(wantAds)
+					if string(gb) != string(wb) {
+						return pn, string(gb), string(wb)
+					}
+				}
+				return -1, "", ""
+			}
+			out.Stat("elig_history_checks", 1)
+			if pn, gb, wb := differs(eligible(false)); pn >= 0 && !failedElig {
+				if p2, _, _ := differs(eligible(true)); p2 < 0 {
+					failedElig = true
+					out.Stat("elig_f18_hits", 1)
+					out.Fail("bgp-local-duplicate-address-across-nodes",
+						fmt.Sprintf("after event %d: peer %d is offered %s, the eligibility rule of the statement gives %s (Local policy, address served here has a non-serving entry on another node)", len(done)-1, pn, gb, wb),
+						map[string]any{"history": vsHist{Ignore: h.Ignore, Disabled: h.Disabled, Speakers: h.Speakers, Evs: done}})
+				} else {
+					failedElig = true
+					out.Fail("bgp-announced-state-differs-from-eligibility",
+						fmt.Sprintf("after event %d: peer %d is offered %s, but by the statement's eligibility rule (advertisement selects the node, not network-unavailable, not excluded unless ignored, endpoint rule) it must be offered %s", len(done)-1, pn, gb, wb),
+						map[string]any{"history": vsHist{Ignore: h.Ignore, Disabled: h.Disabled, Speakers: h.Speakers, Evs: done}, "observed": o})
+				}
+			}
+		}
 		// responder decision per address and local interface follows the contents
 		for name, ents := range o.L2 {
 			for _, en := range ents {
@@ -948,6 +1035,342 @@ func vsRunHistory(out *vOut, id int, kind string, h vsHist, r *rand.Rand) {
 	hh := h
 	hh.Evs = done
 	out.Case(id, kind, cCtor("mk_scase", cNi(id), cBool(h.Ignore), cListN(vsLocalIfs), "HT", spk, cList(steps)), hh)
+}
+
+
+// ---------------------------------------------------------------- election-focused histories
+// All nodes are known before any service, the layer-2 advertisements select several
+// nodes on all interfaces, then conditions / exclude labels of the nodes (mostly
+// OTHER nodes than the observed speaker) flip in both directions, interleaved with
+// service events, speaker-list changes and advertisement node-set changes.
+// No first node event after services (F25), no interface lists (F9), one address per
+// service (F8): so that the multi-speaker oracle below has no recorded exception.
+
+func vsElectCfg(r *rand.Rand) *vsCfg {
+	c := &vsCfg{Peers: []vbPeer{{Name: 0, Sels: [][][2]int{}}}}
+	for p := 0; p < 2; p++ {
+		pl := vsPool{CIDRs: []string{"10.20.30.0/24", "fc00:30::/64"}}
+		if p == 1 {
+			pl.CIDRs = []string{"10.20.31.0/24", "fc00:31::/64"}
+		}
+		nodes := []int{}
+		for i := 0; i < 3; i++ {
+			if r.Intn(5) != 0 {
+				nodes = append(nodes, i)
+			}
+		}
+		pl.L2 = []vsL2Adv{{Nodes: nodes, Ifs: []int{}, All: true}}
+		if r.Intn(2) == 0 {
+			pl.BGP = []vbBAdv{{Agg4: 32, Agg6: 128, LP: 100, Comms: []int{}, Nodes: nodes, NodeFalse: []int{}, Peers: []int{}}}
+		}
+		c.Pools = append(c.Pools, pl)
+	}
+	return c
+}
+
+var vsElectIPs = []string{"10.20.30.1", "10.20.30.2", "10.20.30.200", "10.20.31.1", "10.20.31.2", "fc00:30::1", "fc00:31::1"}
+
+func vsElectSvc(r *rand.Rand) *vsSvc {
+	s := &vsSvc{LB: true, Local: r.Intn(3) == 0, IPs: []string{vsElectIPs[r.Intn(len(vsElectIPs))]}}
+	T := true
+	for ne := 1 + r.Intn(3); ne > 0; ne-- {
+		s.Eps = append(s.Eps, []vbEP{{Ready: &T, Node: r.Intn(3), Addrs: []int{1 + r.Intn(2)}}})
+	}
+	return s
+}
+
+func vsGenElectHist(r *rand.Rand) vsHist {
+	h := vsHist{Ignore: r.Intn(3) == 0}
+	if r.Intn(4) == 0 {
+		h.Disabled = true
+	} else {
+		h.Speakers = []int{0, 1, 2}
+	}
+	var node [3]*vsNode
+	for i := 0; i < 3; i++ {
+		node[i] = &vsNode{Idx: i, Labels: vbGenLabels(r), LblVal: r.Intn(4)}
+		if h.Ignore && r.Intn(3) != 0 { // labelled nodes under ignoreExcludeLB
+			node[i].Excl = true
+		}
+		h.Evs = append(h.Evs, vsEv{Op: "node", Node: node[i]})
+	}
+	h.Evs = append(h.Evs, vsEv{Op: "cfg", Cfg: vsElectCfg(r)})
+	var last [4]*vsSvc
+	for k := 0; k < 3; k++ {
+		last[k] = vsElectSvc(r)
+		h.Evs = append(h.Evs, vsEv{Op: "svc", Name: k, Svc: last[k]})
+	}
+	flip := func(idx int) {
+		c := *node[idx]
+		if r.Intn(3) != 0 || (h.Ignore && r.Intn(2) == 0) {
+			c.Unavail = !c.Unavail
+		} else {
+			c.Excl = !c.Excl
+		}
+		node[idx] = &c
+		h.Evs = append(h.Evs, vsEv{Op: "node", Node: &c})
+	}
+	for n := 6 + r.Intn(10); n > 0; n-- {
+		x := r.Intn(100)
+		switch {
+		case x < 40:
+			flip(1 + r.Intn(2)) // another node
+		case x < 50:
+			flip(0)
+		case x < 80: // a service event (the same service again, or changed)
+			k := r.Intn(3)
+			if r.Intn(2) == 0 {
+				last[k] = vsElectSvc(r)
+			}
+			h.Evs = append(h.Evs, vsEv{Op: "svc", Name: k, Svc: last[k]})
+		case x < 86:
+			k := r.Intn(3)
+			h.Evs = append(h.Evs, vsEv{Op: "del", Name: k}, vsEv{Op: "svc", Name: k, Svc: last[k]})
+		case x < 93:
+			if !h.Disabled {
+				var l []int
+				for i := 0; i < 3; i++ {
+					if r.Intn(4) != 0 {
+						l = append(l, i)
+					}
+				}
+				h.Evs = append(h.Evs, vsEv{Op: "spk", Speakers: l})
+			}
+		default:
+			h.Evs = append(h.Evs, vsEv{Op: "cfg", Cfg: vsElectCfg(r)})
+		}
+	}
+	flip(1 + r.Intn(2)) // ends right after the flip of another node
+	return h
+}
+
+// first address (of the election alphabet) for which node `winner` has a smaller hash than node `loser`
+func vsAddrWonBy(winner, loser int) string {
+	for _, ip := range vsElectIPs {
+		a := sha256.Sum256([]byte(vbNodeNames[winner] + "#" + net.ParseIP(ip).String()))
+		b := sha256.Sum256([]byte(vbNodeNames[loser] + "#" + net.ParseIP(ip).String()))
+		if string(a[:]) < string(b[:]) {
+			return ip
+		}
+	}
+	panic("no address")
+}
+
+// the owner of an address loses eligibility, gets it back; the flips are on the node whose speaker is NOT observed
+func vsOwnerFlipHist(other int, labelled bool) vsHist {
+	T := true
+	ip := vsAddrWonBy(other, 0)
+	svc := &vsSvc{LB: true, IPs: []string{ip}, Eps: [][]vbEP{{{Ready: &T, Node: 0, Addrs: []int{1}}, {Ready: &T, Node: other, Addrs: []int{2}}}}}
+	cidr := "10.20.30.0/24"
+	if vsPoolIdx(&vsCfg{Pools: []vsPool{{CIDRs: []string{cidr}}}}, []string{ip}) < 0 {
+		cidr = "10.20.31.0/24"
+		if vsPoolIdx(&vsCfg{Pools: []vsPool{{CIDRs: []string{cidr}}}}, []string{ip}) < 0 {
+			cidr = "fc00:30::/64"
+			if vsPoolIdx(&vsCfg{Pools: []vsPool{{CIDRs: []string{cidr}}}}, []string{ip}) < 0 {
+				cidr = "fc00:31::/64"
+			}
+		}
+	}
+	nd := func(i int, un, ex bool) *vsNode { return &vsNode{Idx: i, Unavail: un, Excl: ex} }
+	if labelled { // the speakers ignore the exclude label, every node carries it throughout; only the network condition flips
+		lb := func(i int, un bool) *vsNode { return &vsNode{Idx: i, Unavail: un, Excl: true, LblVal: i} }
+		return vsHist{Ignore: true, Speakers: []int{0, other}, Evs: []vsEv{
+			{Op: "node", Node: lb(0, false)}, {Op: "node", Node: lb(other, false)},
+			{Op: "cfg", Cfg: &vsCfg{Pools: []vsPool{{CIDRs: []string{cidr}, L2: []vsL2Adv{{Nodes: []int{0, other}, Ifs: []int{}, All: true}}}}}},
+			{Op: "svc", Name: 0, Svc: svc},
+			{Op: "node", Node: lb(other, true)},
+			{Op: "node", Node: lb(other, false)},
+			{Op: "node", Node: lb(0, true)},
+			{Op: "node", Node: lb(other, true)},
+			{Op: "node", Node: lb(0, false)},
+		}}
+	}
+	return vsHist{Speakers: []int{0, other}, Evs: []vsEv{
+		{Op: "node", Node: nd(0, false, false)}, {Op: "node", Node: nd(other, false, false)},
+		{Op: "cfg", Cfg: &vsCfg{Pools: []vsPool{{CIDRs: []string{cidr}, L2: []vsL2Adv{{Nodes: []int{0, other}, Ifs: []int{}, All: true}}}}}},
+		{Op: "svc", Name: 0, Svc: svc},
+		{Op: "node", Node: nd(other, true, false)},  // the owner's network goes away: this node must take over
+		{Op: "svc", Name: 0, Svc: svc},              // a service event
+		{Op: "node", Node: nd(other, false, false)}, // the owner recovers: this node must withdraw
+		{Op: "node", Node: nd(other, false, true)},  // the owner gets the exclude label
+		{Op: "node", Node: nd(other, false, false)},
+	}}
+}
+
+// ---------------------------------------------------------------- several speakers
+// One real controller (with its real layer2Controller and announcer) per node, a
+// shared speaker list, every event delivered to all of them, each re-syncing only
+// when ITS handler asks for it (ReprocessAll / ForceSync).  At quiescence, C04:
+// every layer-2 address of a Service is announced by exactly one node, the elected
+// one (eligibility and hash order computed here from the statement), nobody
+// announces when no node is eligible.
+
+func vsRunMulti(out *vOut, kind string, h vsHist, r *rand.Rand) {
+	sl := &vsSL{disabled: h.Disabled, nodes: append([]int(nil), h.Speakers...)}
+	var ks [3]*vsCtl
+	for i := range ks {
+		ks[i] = vsNewCtlFor(i, h.Ignore, sl)
+		defer ks[i].a.VerifSpkClose()
+	}
+	lg := log.NewNopLogger()
+	w := &vsWorld{K: map[int]*vsSvc{}, nodes: map[int]*vsNode{}}
+	var done []vsEv
+	failed := false
+	resync := func(k *vsCtl) {
+		names := []int{}
+		for n := range w.K {
+			names = append(names, n)
+		}
+		sort.Ints(names)
+		r.Shuffle(len(names), func(i, j int) { names[i], names[j] = names[j], names[i] })
+		for _, n := range names {
+			vsSetBalancer(k, n, w.K[n])
+		}
+	}
+	for _, e := range h.Evs {
+		order := r.Perm(3) // the speakers see the event in some order
+		switch e.Op {
+		case "svc":
+			w.K[e.Name] = e.Svc
+		case "del":
+			delete(w.K, e.Name)
+		case "node":
+			w.nodes[e.Node.Idx] = e.Node
+		case "cfg":
+			w.cfg = e.Cfg
+		case "spk":
+			sl.disabled, sl.nodes = e.Disabled, append([]int(nil), e.Speakers...)
+		}
+		for _, i := range order {
+			k := ks[i]
+			switch e.Op {
+			case "svc":
+				vsSetBalancer(k, e.Name, e.Svc)
+			case "del":
+				vsSetBalancer(k, e.Name, nil)
+			case "node":
+				if k.c.SetNode(lg, vsBuildNode(e.Node)) == controllers.SyncStateReprocessAll {
+					resync(k)
+				}
+			case "cfg":
+				if k.c.SetConfig(lg, vsBuildCfg(e.Cfg)) == controllers.SyncStateReprocessAll {
+					resync(k)
+				}
+			default: // speaker-list change (ForceSync) or any other full re-sync
+				resync(k)
+			}
+		}
+		done = append(done, e)
+		out.Stat("multi_events", 1)
+		if w.cfg == nil {
+			continue
+		}
+		// ---- C04 at quiescence
+		for n, s := range w.K {
+			var ann []int
+			for i, k := range ks {
+				if _, ok := k.a.VerifSpkDump()[vbSvcName(n)]; ok {
+					ann = append(ann, i)
+				}
+			}
+			var elig []int
+			pi := -1
+			if s.LB && !s.Invalid && len(s.IPs) > 0 {
+				pi = vsPoolIdx(w.cfg, s.IPs)
+			}
+			if pi >= 0 {
+				anyEp := false
+				for _, ep := range vbEntries(vbLayout{Eps: s.Eps}) {
+					if vbCanServe(ep) {
+						anyEp = true
+					}
+				}
+				for i := 0; i < 3 && anyEp; i++ {
+					nd := w.nodes[i]
+					speaker := nd != nil
+					if !sl.disabled {
+						speaker = false
+						for _, x := range sl.nodes {
+							if x == i {
+								speaker = true
+							}
+						}
+					}
+					sel := false
+					for _, a := range w.cfg.Pools[pi].L2 {
+						for _, x := range a.Nodes {
+							if x == i {
+								sel = true
+							}
+						}
+					}
+					here := !s.Local
+					for _, ep := range vbEntries(vbLayout{Eps: s.Eps}) {
+						if vbCanServe(ep) && ep.Node == i {
+							here = true
+						}
+					}
+					if speaker && sel && here && !(nd != nil && nd.Unavail) && !(nd != nil && nd.Excl && !h.Ignore) {
+						elig = append(elig, i)
+					}
+				}
+			}
+			want := []int{}
+			if len(elig) > 0 {
+				best, bh := -1, ""
+				for _, i := range elig {
+					d := sha256.Sum256([]byte(vbNodeNames[i] + "#" + net.ParseIP(s.IPs[0]).String()))
+					if best < 0 || string(d[:]) < bh {
+						best, bh = i, string(d[:])
+					}
+				}
+				want = []int{best}
+				out.Stat("multi_elections", 1)
+				if len(elig) > 1 {
+					out.Stat("multi_contested_elections", 1)
+				}
+			}
+			out.Stat("multi_service_checks", 1)
+			if fmt.Sprint(ann) != fmt.Sprint(want) && !failed {
+				failed = true
+				sig := "l2-announcers-differ-from-election"
+				if len(ann) > 1 {
+					sig = "l2-two-announcers-after-node-flip"
+				}
+				out.Fail(sig, fmt.Sprintf("several speakers, after event %d (%s): service s%d (%v) is announced over layer 2 by nodes %v; eligible nodes %v, elected %v",
+					len(done)-1, e.Op, n, s.IPs, ann, elig, want),
+					map[string]any{"multi_history": vsHist{Ignore: h.Ignore, Disabled: h.Disabled, Speakers: h.Speakers, Evs: done}})
+			}
+		}
+	}
+	out.Stat("multi_histories", 1)
+}
+
+// TestVerifSpkMulti: the several-speakers part alone (used by C04 / C12 / C09)
+func TestVerifSpkMulti(t *testing.T) {
+	out := vOpen()
+	defer out.Close()
+	r := vRand()
+	n := vN(30)
+	for _, other := range []int{1, 2} {
+		vsRunMulti(out, "corpus-owner-flip", vsOwnerFlipHist(other, false), r)
+		vsRunMulti(out, "corpus-labelled-owner-flip", vsOwnerFlipHist(other, true), r)
+	}
+	if rp := os.Getenv("VERIF_REPLAY"); rp != "" {
+		if b, err := os.ReadFile(rp); err == nil {
+			var x struct {
+				Replay struct {
+					History *vsHist `json:"multi_history"`
+				} `json:"replay"`
+			}
+			if json.Unmarshal(b, &x) == nil && x.Replay.History != nil {
+				vsRunMulti(out, "replay", *x.Replay.History, r)
+			}
+		}
+	}
+	for i := 0; i < n; i++ {
+		vsRunMulti(out, "random", vsGenElectHist(r), r)
+	}
 }
 
 func TestVerifSpk(t *testing.T) {
@@ -1045,5 +1468,16 @@ func TestVerifSpk(t *testing.T) {
 	for i := 0; i < n; i++ {
 		id++
 		vsRunHistory(out, id, "random", vsGenHist(r), r)
+	}
+	// election-focused histories: conditions / labels of the OTHER nodes flip
+	for _, other := range []int{1, 2} {
+		id++
+		vsRunHistory(out, id, "corpus-owner-flip", vsOwnerFlipHist(other, false), r)
+		id++
+		vsRunHistory(out, id, "corpus-labelled-owner-flip", vsOwnerFlipHist(other, true), r)
+	}
+	for i := 0; i < n/2; i++ {
+		id++
+		vsRunHistory(out, id, "random-election", vsGenElectHist(r), r)
 	}
 }
